@@ -58,6 +58,8 @@ fn read_patterns_small() -> Vec<Value> {
         json!({"steps":[["send"],["read",1],["bytes"]]}),
         json!({"steps":[["send"],["efs_bytes"]]}),
         json!({"steps":[["send"],["split_bytes"]]}),
+        // the streaming text reader over an ASCII payload, short buffers with empty reads in between
+        json!({"steps":[["send"],["text_reader"]],"pk":"ascii","reader_bufs":[3,1,8],"text_is_payload":true}),
     ]
 }
 
@@ -120,7 +122,7 @@ pub fn generate(family: &str, seed: u64, tier: &str) -> Vec<String> {
                         for (pi, p) in read_patterns_small().iter().enumerate() {
                             // keep the product tractable: all read patterns for the basic segmentations,
                             // a rotating one for the others
-                            if qi >= 2 && (qi + si) % 10 != pi {
+                            if qi >= 2 && (qi + si) % 11 != pi {
                                 continue;
                             }
                             let sc = with(&with(&with(s, seg.clone()), p.clone()), json!({"seed":si,"garbage":g,
@@ -263,6 +265,15 @@ pub fn generate(family: &str, seed: u64, tier: &str) -> Vec<String> {
                             }
                         }
                     }
+                }
+            }
+        }
+        // C03: a Content-Length that ends before the coded stream does still delimits the body (x_coded's such cases)
+        "x_coded_short" => {
+            for l in generate("x_coded", seed, tier) {
+                let sc: Value = serde_json::from_str(&l).unwrap();
+                if sc["body"].get("declared").is_some() {
+                    out.push(sc);
                 }
             }
         }
